@@ -1,5 +1,6 @@
 """Sidecar contracts: registry, application at call sites, and verification of a function against its contract."""
 import ast
+import re
 import importlib
 import os
 import pkgutil
@@ -21,7 +22,10 @@ REGISTRY = {}      # qualname -> Contract
 class Contract:
     def __init__(self, qualname, props, instances, requires=(), ensures=(), effects=(), raises=(), modifies=(),
                  loops=None, comps=None, returns=None, decreases=None, trusted=False, note="", canaries=(),
-                 call_when=None, pure=False, gen=None, may_raise=(), taint=(), inherited=None):
+                 call_when=None, pure=False, gen=None, may_raise=(), taint=(), inherited=None, budget=None,
+                 quick_instances=None):
+        self.quick_instances = quick_instances      # indices verified in the quick tier (default: all); thorough: all
+        self.budget = budget or {}                  # {"paths": n, "time": seconds} for functions with many paths
         self.inherited = inherited                  # (param names) the method may be inherited unchanged from list
         self.taint = list(taint)                    # parameters standing for a symbolic weight (non-interference)
         self.may_raise = list(may_raise)            # exceptions the function may raise exactly as its base class does
@@ -185,7 +189,8 @@ def value_matches_kind(eng, v, kind):
     if kind == "bool":
         return isinstance(v, bool) or (isinstance(v, SV) and v.t == "bool")
     if kind == "label":
-        return isinstance(v, SV) and v.t == "label" or isinstance(v, (str, int)) and not isinstance(v, bool)
+        # an integer used as a label (the integer labels of an enumerated / reduced model) is a label
+        return isinstance(v, SV) and v.t in ("label", "int") or isinstance(v, (str, int)) and not isinstance(v, bool)
     if kind == "key":
         return isinstance(v, SV) and v.t == "key" or (isinstance(v, tuple) and all(value_matches_kind(eng, x, "label") for x in v))
     if kind == "labelkey":
@@ -563,9 +568,14 @@ Engine.comp_spec = _comp_spec
 
 
 # ------------------------------------------------------------------------------------------- verification
-def verify_instance(db, contracts, c, inst_index, max_paths=400, time_budget=120):
-    """Verify the body of c's function against c for one parameter instance. Returns a result dict."""
+def verify_instance(db, contracts, c, inst_index, max_paths=400, time_budget=120, start=None, split_at=None, tag=""):
+    """Verify the body of c's function against c for one parameter instance. Returns a result dict.
+    start: decision prefixes to explore (default: the whole function); split_at: stop as soon as that many
+    unexplored prefixes are pending and hand them back in res["pending"] (they are then explored by other
+    processes - the subtrees of the path tree are independent); tag: makes the path numbers of a part unique."""
     inst = c.instances[inst_index]
+    max_paths = c.budget.get("paths", max_paths)
+    time_budget = c.budget.get("time", time_budget)
     eng = Engine(db, contracts, target=c)
     modname, fpath = c.module, c.funcpath
     fd = db.lookup(modname, fpath)
@@ -589,10 +599,13 @@ def verify_instance(db, contracts, c, inst_index, max_paths=400, time_budget=120
     if ".<locals>." in fpath:
         # a nested function may refer to itself through the enclosing scope
         cl.env = Frame(None, {fd.name: cl})
-    stack = [[]]
+    stack = [list(p) for p in start] if start else [[]]
     t0 = time.time()
     lemmas = set()
     while stack:
+        if split_at and eng.stats["paths"] >= 2 and len(stack) >= split_at:
+            res["pending"] = stack
+            break
         prefix = stack.pop()
         if eng.stats["paths"] >= max_paths or time.time() - t0 > time_budget:
             res["status"] = "unsupported"
@@ -618,6 +631,9 @@ def verify_instance(db, contracts, c, inst_index, max_paths=400, time_budget=120
         for p in eng.pending:
             stack.append(p)
     res["paths"] = eng.stats["paths"]
+    if tag:
+        for o in eng.results:
+            o["name"] = re.sub(r"#p(\d+)$", "#p%s_\\1" % tag, o["name"])
     res["obligations"] = eng.results
     res["inlined"] = sorted(eng.inlined)
     res["used_contracts"] = sorted(eng.used_contracts)
@@ -706,6 +722,7 @@ def _run_path(eng, c, cl, inst, cls):
                    note="returned normally although the contract says it raises")
     post_env = dict(env)
     post_env["result"] = result
+    eng._final_locals = dict(frame.locals)        # ghost access to the locals at the return point: final('name')
     if c.gen is not None:
         total = eng.eval_spec(c.gen["total"], env, fr0)
         eng.oblige("%s/yield.total" % qn, _to_bool(eng, SV(zreal(eng.gen_state["yielded"]) == zreal(total), "bool")))
